@@ -25,6 +25,7 @@ tv_shipped = partial(e9.rule_translation, which=("main", "nonhermitian"))
 diag_solver_real = partial(e7b.rule_diagonal_solver, complex_energies=False)  # Hermitian H_0: real energies
 start_data_shipped = partial(e9.rule_start_data, all_programs=False)
 shared_check_memo = partial(e7b.rule_shared_eigenvalue_check, divisions=False)  # C10 / C11: only the memo of checked pairs
+runtime_series = partial(e9.rule_runtime_support, compiler_helpers=False)  # C18 / C19: the series.py part only
 memo_key_parsing = partial(e4.rule_memo_key, modules=("algorithm_parsing", "series"))
 memo_key_nof = partial(e4.rule_memo_key, modules=("number_ordered_form", "second_quantization"))  # C08 is about that arithmetic only
 
@@ -288,7 +289,7 @@ prop(
 
 prop(
     "C18", level="other", selftest=["series"],
-    rules=[e2c.rule_product_by_order, e2c.rule_cauchy_wiring, e2c.rule_adjoint_fill, main_e1, e4.rule_value_preserving, e9.rule_runtime_support,
+    rules=[e2c.rule_product_by_order, e2c.rule_cauchy_wiring, e2c.rule_adjoint_fill, main_e1, e4.rule_value_preserving, runtime_series,
            e9.rule_adjoint_binding],
     explanation=(
         "product_by_order: order box, complementary orders, index wiring (start, middle, *o1) / (middle, end, *o2), "
@@ -300,7 +301,7 @@ prop(
 
 prop(
     "C19", level="other", selftest=["series"],
-    rules=[e2b.rule_check_finite, e3.rule_typestate, wf_all, e9.rule_runtime_support],
+    rules=[e2b.rule_check_finite, e3.rule_typestate, wf_all, runtime_series],
     explanation=(
         "numpy equivalence is by construction (the code indexes a real numpy trial array with the user's expression); "
         "decided clauses: _check_finite rejects, for every member of the declared OneItem union, negative and "
